@@ -47,7 +47,10 @@ pub fn generate(seed: u64, n_cases: usize, out: &Path, only: Option<usize>) -> R
         let mode = ["A", "B", "C"][rng.below(3)];
         let wakati = rng.chance(1, 3);
         let all = !wakati && rng.chance(1, 2);
-        let split = rng.chance(2, 3);
+        // a physical line longer than any I/O window, made of many short sentences (only with sentence splitting:
+        // without it the library itself refuses the text)
+        let long_line = rng.chance(1, 15);
+        let split = long_line || rng.chance(2, 3);
         // input file: lines with various terminators
         let nlines = 1 + rng.below(8);
         let mut input = String::new();
@@ -61,8 +64,35 @@ pub fn generate(seed: u64, n_cases: usize, out: &Path, only: Option<usize>) -> R
                     s.push_str(&gen_text(&mut rng, &spec.keys));
                     s
                 }
+                2 => {
+                    // sentence ends other than the ideographic full stop: runs of middle dots, doubled <br>,
+                    // ASCII / full-width dots next to letters and digits, quotes followed by と
+                    const BREAKS: [&str; 16] = ["・・・", "・・", "・・・・", "<br><br>", "<BR><br>", "<br>", "…", "?", "！", ".", "．", "1.", "a．", "」と", "！です", "♪ "];
+                    let mut s = String::new();
+                    for _ in 0..1 + rng.below(4) {
+                        s.push_str(&gen_text(&mut rng, &spec.keys));
+                        s.push_str(BREAKS[rng.below(BREAKS.len())]);
+                    }
+                    if rng.chance(1, 2) {
+                        s.push_str(&gen_text(&mut rng, &spec.keys));
+                    }
+                    s
+                }
                 _ => gen_text(&mut rng, &spec.keys),
             };
+            if long_line && li == 0 {
+                // total length around 2^16 bytes; the terminator may straddle the mark
+                let unit = ["あ。", "a.", "東京。", "𠮟!"][rng.below(4)];
+                let target = 65536 - 8 + rng.below(16);
+                let mut s = String::with_capacity(target + 8);
+                while s.len() + unit.len() <= target {
+                    s.push_str(unit);
+                }
+                while s.len() < target {
+                    s.push('x');
+                }
+                t = s;
+            }
             t = t.replace('\u{0}', "").replace('\n', "").replace('\r', "");
             let last = li + 1 == nlines;
             let term = match rng.below(6) {
